@@ -37,18 +37,18 @@ Upper(w) == CASE w = "id" -> "ID" [] w = "msg" -> "MSG" [] w = "tag" -> "Tag" []
               [] w = "logdata" -> "LogData" [] w = "t" -> "T" [] w = "rev" -> "REV" [] w = "ver" -> "Ver" [] w = "nolog" -> "NoLog"
               [] w = "status" -> "STATUS" [] w = "deny" -> "Deny" [] w = "capture" -> "CAPTURE" [] w = "chain" -> "Chain"
               [] w = "setvar" -> "SetVar" [] w = "severity" -> "Severity" [] w = "multimatch" -> "multiMatch"
-              [] w = "secrule" -> "SECRULE" [] w = "secaction" -> "SecAction" [] OTHER -> w
+              [] w = "block" -> "Block" [] w = "secrule" -> "SECRULE" [] w = "secaction" -> "SecAction" [] OTHER -> w
 Fold(w) == CASE w = "ID" -> "id" [] w = "MSG" -> "msg" [] w = "Tag" -> "tag" [] w = "PASS" -> "pass" [] w = "Phase" -> "phase"
               [] w = "LogData" -> "logdata" [] w = "T" -> "t" [] w = "REV" -> "rev" [] w = "Ver" -> "ver" [] w = "NoLog" -> "nolog"
               [] w = "STATUS" -> "status" [] w = "Deny" -> "deny" [] w = "CAPTURE" -> "capture" [] w = "Chain" -> "chain"
               [] w = "SetVar" -> "setvar" [] w = "Severity" -> "severity" [] w = "multiMatch" -> "multimatch"
-              [] w = "SECRULE" -> "secrule" [] w = "SecRule" -> "secrule" [] w = "SecAction" -> "secaction" [] OTHER -> w
+              [] w = "Block" -> "block" [] w = "SECRULE" -> "secrule" [] w = "SecRule" -> "secrule" [] w = "SecAction" -> "secaction" [] OTHER -> w
 
 (* ---------------------------------------------------------------- descriptions and rendering *)
 \* target: [col, neg, count, kk \in {"none","plain","rx","qrx"}, key : token sequence]
 \* op:     [neg, name ("" = implicit rx), arg : token sequence]
 \* act:    [name, hasVal, val : token sequence, needQ : the value cannot be written without quotes]
-\* style:  [upDir, upAct, quoteAll, spaceAfterComma, cont \in {"none","sections","actions"}, indent, comment, split]
+\* style:  [upDir, upAct, quoteAll, spaceAfterComma, cont \in {"none","sections","actions"}, indent, comment \in {"none","plain","bs"}]
 
 RenderKey(t) ==
   CASE t.kk = "none"  -> << >>
@@ -77,7 +77,9 @@ RenderActs(as, st) == <<P(DQ, "a.open")>> \o Join([i \in 1..Len(as) |-> RenderAc
 
 SectionSep(st) == <<P(SP, "sp")>> \o (IF st.cont = "sections" THEN Break(st) ELSE << >>)
 Render(d, st) ==
-   (IF st.comment THEN <<P(HASH, "cmt"), P(SP, "cmt"), P("SecRule", "cmt"), P(NL, "nl")>> ELSE << >>)
+   (IF st.comment = "plain" THEN <<P(HASH, "cmt"), P(SP, "cmt"), P("SecRule", "cmt"), P(NL, "nl")>>
+    ELSE IF st.comment = "bs" THEN <<P(HASH, "cmt"), P(SP, "cmt"), P("C:", "cmt"), P(BS, "cmt"), P("waf", "cmt"), P(BS, "cmt"), P(NL, "nl")>>   \* a comment that ends in a backslash is still only a comment
+    ELSE << >>)
    \o Indent(st) \o <<P(IF st.upDir THEN Upper("secrule") ELSE "SecRule", "w"), P(SP, "sp")>>
    \o RenderTargets(d.targets) \o SectionSep(st) \o RenderOp(d.op)
    \o (IF d.acts = << >> THEN << >> ELSE SectionSep(st) \o RenderActs(d.acts, st))
@@ -242,7 +244,7 @@ Read(toks) == LET ls == LogicalLines(toks) IN IF Len(ls) # 1 THEN Rej("not-one-l
 
 \* several rules one after the other, each on its own (possibly continued, indented, commented) lines
 RECURSIVE RenderAll(_, _)
-RenderAll(ds, st) == IF ds = << >> THEN << >> ELSE Render(ds[1], st) \o (IF Len(ds) > 1 THEN <<P(NL, "nl")>> \o (IF st.comment THEN <<P(NL, "nl")>> ELSE << >>) ELSE << >>) \o RenderAll(Tail(ds), st)
+RenderAll(ds, st) == IF ds = << >> THEN << >> ELSE Render(ds[1], st) \o (IF Len(ds) > 1 THEN <<P(NL, "nl")>> \o (IF st.comment # "none" THEN <<P(NL, "nl")>> ELSE << >>) ELSE << >>) \o RenderAll(Tail(ds), st)
 
 \* what a description reads back as
 NormalAct(a) == [name |-> a.name, hasVal |-> a.hasVal, val |-> a.val]
